@@ -448,17 +448,157 @@ Fixpoint lrun (ttl : Z) (st : lstate) (ops : list lop) : lstate * list res :=
 
 Definition linit (now0 : Z) : lstate := mkL 0 None now0 [] [].
 
+(* ------------------------------------------------------------------ several decorated functions *)
+(* One decorator object may be applied to several functions (`memo = alru_cache(maxsize=2)`, `@memo` twice).
+   The stores are created when the decorator is *applied*:
+     alru_cache            tools.py 226-227  `def decorator(fn): cache = LRUCache(maxsize)`
+     acached_per_instance  tools.py 175-180  `def cache_fun(fun): ... cache = {}`
+     alazy_constant        tools.py 264-281  the state lives in attributes of the wrapper of that function
+   so the state of a family of decorated functions is one component per function, whatever decorator object
+   each of them went through; the decorator object only carries the configuration (maxsize, key_fn / ttl).
+   Component f of the list is the state of function f; an operation addressed to function f steps component f
+   with f's own key construction and capacity.  Shared between the components: only the clock (utime) and the
+   identity / lifetime of the instances the methods are called on. *)
+Fixpoint upd {A} (l : list A) (f : nat) (x : A) : list A :=
+  match l, f with
+  | [], _ => []
+  | _ :: l', O => x :: l'
+  | y :: l', S f' => y :: upd l' f' x
+  end.
+
+Section Family.
+  Variable K : Type.
+  Variable keqb : K -> K -> bool.
+  Variable kfs : nat -> call -> option K.      (* cache_key of function f          *)
+  Variable valids : nat -> call -> bool.       (* do the arguments bind to f's signature? *)
+  Variable caps : nat -> nat.                  (* maxsize of the decorator f went through *)
+
+  (* the log says which function's body ran for which call *)
+  Definition tag_runs (f : nat) (before after : list Z) : list (Z * Z) :=
+    map (fun i => (i, Z.of_nat f)) (skipn (length before) after).
+
+  (* ---- alru_cache *)
+  Record mstate := mkM { mfns : list (astate K); mlog : list (Z * Z) }.
+
+  Definition mstep (st : mstate) (fo : nat * aop) : mstate * res :=
+    let f := fst fo in
+    match nth_error (mfns st) f with
+    | None => (st, RNoop)                                   (* no such function *)
+    | Some a =>
+      let '(a', r) := astep K keqb (kfs f) (valids f) (caps f) a (snd fo) in
+      (mkM (upd (mfns st) f a') (mlog st ++ tag_runs f (runs a) (runs a')), r)
+    end.
+
+  Definition msizes (st : mstate) : list Z := map (fun a => Z.of_nat (length (store a))) (mfns st).
+
+  Fixpoint mrun (st : mstate) (ops : list (nat * aop)) : mstate * list (res * list Z) :=
+    match ops with
+    | [] => (st, [])
+    | o :: ops' =>
+      let '(s1, r) := mstep st o in
+      let '(s2, rs) := mrun s1 ops' in (s2, (r, msizes s1) :: rs)
+    end.
+
+  Definition minit (n : nat) : mstate := mkM (repeat ainit n) [].
+
+  (* ---- acached_per_instance: methods of one class, called on the same instances *)
+  Record mpstate := mkMP { mpfns : list (pstate K); mplog : list (Z * Z) }.
+
+  Definition mpstep (st : mpstate) (fo : nat * pop) : mpstate * res :=
+    let f := fst fo in
+    match snd fo with
+    | PDrop i =>
+      (* the instance dies (every method's weakref callback fires) unless some call on it is in flight *)
+      if existsb (fun p => inst_busy K (pinfl p) i) (mpfns st) then (st, RBusy)
+      else (mkMP (map (fun p => mkP (p_remove K (pstore p) i) (pinfl p) (pruns p)) (mpfns st)) (mplog st), RUnit)
+    | o =>
+      match nth_error (mpfns st) f with
+      | None => (st, RNoop)
+      | Some p =>
+        let '(p', r) := pstep K keqb (kfs f) (valids f) p o in
+        (mkMP (upd (mpfns st) f p') (mplog st ++ tag_runs f (pruns p) (pruns p')), r)
+      end
+    end.
+
+  Definition mpsizes (st : mpstate) : list (Z * Z) :=
+    map (fun p => (Z.of_nat (length (pstore p)), Z.of_nat (p_total K (pstore p)))) (mpfns st).
+
+  Fixpoint mprun (st : mpstate) (ops : list (nat * pop)) : mpstate * list (res * list (Z * Z)) :=
+    match ops with
+    | [] => (st, [])
+    | o :: ops' =>
+      let '(s1, r) := mpstep st o in
+      let '(s2, rs) := mprun s1 ops' in (s2, (r, mpsizes s1) :: rs)
+    end.
+
+  Definition mpinit (n : nat) : mpstate := mkMP (repeat pinit n) [].
+End Family.
+
+Arguments mkM {K}. Arguments mfns {K}. Arguments mlog {K}. Arguments minit {K}.
+Arguments mkMP {K}. Arguments mpfns {K}. Arguments mplog {K}. Arguments mpinit {K}.
+
+(* ---- alazy_constant: one clock, one (refresh time, cached value) per decorated function *)
+Record mlstate := mkML { mlfns : list lstate; mllog : list (Z * Z) }.
+
+Definition mlstep (ttls : nat -> Z) (st : mlstate) (fo : nat * lop) : mlstate * res :=
+  let f := fst fo in
+  match snd fo with
+  | LTick dt => (mkML (map (fun l => fst (lstep 0 l (LTick dt))) (mlfns st)) (mllog st), RUnit)
+  | o =>
+    match nth_error (mlfns st) f with
+    | None => (st, RNoop)
+    | Some l =>
+      let '(l', r) := lstep (ttls f) l o in
+      (mkML (upd (mlfns st) f l') (mllog st ++ tag_runs f (lruns l) (lruns l')), r)
+    end
+  end.
+
+Fixpoint mlrun (ttls : nat -> Z) (st : mlstate) (ops : list (nat * lop)) : mlstate * list res :=
+  match ops with
+  | [] => (st, [])
+  | o :: ops' =>
+    let '(s1, r) := mlstep ttls st o in
+    let '(s2, rs) := mlrun ttls s1 ops' in (s2, r :: rs)
+  end.
+
+Definition mlinit (n : nat) (now0 : Z) : mlstate := mkML (repeat (linit now0) n) [].
+
+(* configuration: decorator objects, and for every function the decorator object it went through *)
+Definition adeco := (keymode * Z)%type.                       (* alru_cache(maxsize, key_fn) *)
+Definition resolve {D A} (dflt : D) (decos : list D) (fns : list (nat * A)) : list (D * A) :=
+  map (fun fa => (nth (fst fa) decos dflt, snd fa)) fns.
+Definition adflt : adeco := (KmDefault, 128).                (* alru_cache() *)
+
+Definition akfs (src : bool) (conf : list (adeco * sig)) (f : nat) : call -> option key :=
+  match nth_error conf f with Some (km, _, s) => alru_key src km s | None => fun _ => None end.
+Definition avalids (conf : list (adeco * sig)) (f : nat) : call -> bool :=
+  match nth_error conf f with Some (_, s) => bindable s | None => fun _ => false end.
+Definition acaps (conf : list (adeco * sig)) (f : nat) : nat :=
+  match nth_error conf f with Some (_, m, _) => Z.to_nat m | None => 0%nat end.
+Definition ikfs (sigs : list sig) (f : nat) : call -> option key :=
+  match nth_error sigs f with Some s => inst_key s | None => fun _ => None end.
+Definition ivalids (sigs : list sig) (f : nat) : call -> bool :=
+  match nth_error sigs f with Some s => bindable s | None => fun _ => false end.
+
 (* ------------------------------------------------------------------ entry point of the correspondence *)
 Inductive ccase :=
 | CAlru (km : keymode) (maxsize : Z) (s : sig) (ops : list aop)
 | CInst (s : sig) (ops : list pop)
-| CLazy (ttl now0 : Z) (ops : list lop).
+| CLazy (ttl now0 : Z) (ops : list lop)
+(* families: decorator objects, (decorator index, signature) per function, operations addressed to a function *)
+| CAlruM (decos : list adeco) (fns : list (nat * sig)) (ops : list (nat * aop))
+| CInstM (ndecos : nat) (fns : list (nat * sig)) (ops : list (nat * pop))
+| CLazyM (decos : list Z) (fns : list nat) (now0 : Z) (ops : list (nat * lop)).
 
 Inductive cout :=
 | OBadMaxsize                                              (* LRUCache(maxsize) raises ValueError *)
 | OAlru (rs : list (res * Z)) (body_runs : list Z)          (* per op: result, len(cache)         *)
 | OInst (rs : list (res * Z * Z)) (body_runs : list Z)      (* per op: result, #instances, #entries *)
-| OLazy (rs : list res) (body_runs : list Z).
+| OLazy (rs : list res) (body_runs : list Z)
+(* families: per op the result and the size of every function's cache; log of (call id, function whose body ran) *)
+| OAlruM (rs : list (res * list Z)) (body_runs : list (Z * Z))
+| OInstM (rs : list (res * list (Z * Z))) (body_runs : list (Z * Z))
+| OLazyM (rs : list res) (body_runs : list (Z * Z)).
 
 Definition run_with (src : bool) (c : ccase) : cout :=
   match c with
@@ -470,6 +610,19 @@ Definition run_with (src : bool) (c : ccase) : cout :=
     let '(st, rs) := prun key key_eqb (inst_key s) (bindable s) pinit ops in OInst rs (pruns st)
   | CLazy ttl now0 ops =>
     let '(st, rs) := lrun ttl (linit now0) ops in OLazy rs (lruns st)
+  | CAlruM decos fns ops =>
+    let conf := resolve adflt decos fns in
+    if existsb (fun c => snd (fst c) <=? 0) conf then OBadMaxsize
+    else let '(st, rs) := mrun key key_eqb (akfs src conf) (avalids conf) (acaps conf) (minit (length conf)) ops in
+         OAlruM rs (mlog st)
+  | CInstM _ fns ops =>
+    let sigs := map snd fns in
+    let '(st, rs) := mprun key key_eqb (ikfs sigs) (ivalids sigs) (mpinit (length sigs)) ops in
+    OInstM rs (mplog st)
+  | CLazyM decos fns now0 ops =>
+    let ttls := map (fun d => nth d decos 0) fns in
+    let '(st, rs) := mlrun (fun f => nth f ttls 0) (mlinit (length ttls) now0) ops in
+    OLazyM rs (mllog st)
   end.
 
 Definition run_case (c : ccase) : cout := run_with false c.        (* repaired key construction *)
